@@ -20,6 +20,7 @@ from __future__ import annotations
 
 import bisect
 import ctypes
+import itertools
 import os
 import re
 import subprocess
@@ -106,11 +107,7 @@ def category_cset(name: str) -> CSet:
     """Character set of an sre CATEGORY, computed from the real `re` over all of 0..MAXCH
     (so `\\d` is the Unicode Nd set of THIS interpreter, not an assumption)."""
     if name not in _category_cache:
-        pat = {
-            "CATEGORY_DIGIT": r"\d", "CATEGORY_NOT_DIGIT": r"\D",
-            "CATEGORY_WORD": r"\w", "CATEGORY_NOT_WORD": r"\W",
-            "CATEGORY_SPACE": r"\s", "CATEGORY_NOT_SPACE": r"\S",
-        }.get(name)
+        pat = _CATEGORY_PATTERN.get(name)
         if pat is None:
             raise Untranslatable(f"category {name}")
         rx = re.compile(pat)
@@ -166,14 +163,20 @@ def rng(lo: int, hi: int):
     return z3.Range("\\u{%x}" % lo, "\\u{%x}" % hi)
 
 
+_cls_memo: Dict[CSet, object] = {}
+
+
 def cls(cs: CSet):
     """z3 regex for one character out of cs."""
     if not cs:
         return EMPTY
     if cs == CS_ALL:
         return ANYCHAR
-    parts = [rng(lo, hi) for lo, hi in cs]
-    return parts[0] if len(parts) == 1 else z3.Union(*parts)
+    r = _cls_memo.get(cs)
+    if r is None:
+        parts = [rng(lo, hi) for lo, hi in cs]
+        r = _cls_memo[cs] = parts[0] if len(parts) == 1 else z3.Union(*parts)
+    return r
 
 
 def lit(s: str):
@@ -295,11 +298,12 @@ class Translator:
             raise Untranslatable(f"pattern flags {fl}")
         self.ops_seen: set = set()
         self.csets: List[CSet] = []  # every explicit class, for generic_char_check
+        self.categories: set = set()
         self.has_lookaround = False
 
     # -- character classes ------------------------------------------------------------
     def _in_cset(self, items) -> CSet:
-        neg, rs = False, []
+        neg, rs, cat_rs = False, [], []
         for op, av in items:
             name = str(op)
             self.ops_seen.add("IN/" + name)
@@ -310,11 +314,12 @@ class Translator:
             elif name == "RANGE":
                 rs.append((av[0], av[1]))
             elif name == "CATEGORY":
-                rs += list(category_cset(str(av)))
+                self.categories.add(str(av))
+                cat_rs += list(category_cset(str(av)))
             else:
                 raise Untranslatable(f"class item {name}")
-        cs = cs_norm(rs)
-        self.csets.append(cs)
+        self.csets.append(cs_norm(rs))  # explicit part only; categories are checked apart
+        cs = cs_norm(rs + cat_rs)
         return cs_neg(cs) if neg else cs
 
     def _single_char(self, node) -> Optional[CSet]:
@@ -531,13 +536,31 @@ class Translator:
 MARKED_TEXT = cat(SIGMA_STAR, MARKCH, SIGMA_STAR)
 
 
-def generic_char_check(csets: Sequence[CSet]) -> Optional[str]:
-    """None if every explicit class treats all code points >= GENERIC_FROM alike."""
+_CATEGORY_PATTERN = {
+    "CATEGORY_DIGIT": r"\d", "CATEGORY_NOT_DIGIT": r"\D", "CATEGORY_WORD": r"\w",
+    "CATEGORY_NOT_WORD": r"\W", "CATEGORY_SPACE": r"\s", "CATEGORY_NOT_SPACE": r"\S",
+}
+
+
+def generic_char_check(csets: Sequence[CSet], categories: Sequence[str] = ()) -> Optional[str]:
+    """None if every class of the translated patterns treats all code points
+    GENERIC_FROM..0x10FFFF alike (explicit ranges: no boundary up there; categories: asked
+    of the real `re` for every one of those code points)."""
     for cs in csets:
         for lo, hi in cs:
             if hi >= GENERIC_FROM and not (lo <= GENERIC_FROM and hi >= MAXCH):
                 return f"class range ({lo:#x},{hi:#x}) reaches the generic region"
+    for name in sorted(set(categories)):
+        if name not in _generic_cat:
+            high = "".join(map(chr, range(GENERIC_FROM, 0x110000)))
+            n = sum(1 for _ in re.finditer(_CATEGORY_PATTERN[name], high))
+            _generic_cat[name] = n in (0, len(high))
+        if not _generic_cat[name]:
+            return f"category {name} does not treat the code points >= {GENERIC_FROM:#x} alike"
     return None
+
+
+_generic_cat: Dict[str, bool] = {}
 
 
 # ----------------------------------------------------------------------------------------
@@ -547,19 +570,56 @@ class Dfa:
     """Lazy DFA of one z3 regex term.  Independent of z3's solver: used to re-validate
     witnesses and to evaluate languages concretely in the bounded checks."""
 
+    # One node store per process, shared by all Dfa instances: nodes are hash-consed, the
+    # conversion of a z3 term and the derivative of a node by a character are memoised
+    # globally (both are independent of the query they were first needed for).
+    _key2id: Dict[tuple, int] = {}
+    _keys: List[tuple] = []
+    _nul: List[bool] = []
+    _conv_memo_g: Dict[int, Tuple[int, object]] = {}  # z3 ast id -> (node, term kept alive)
+    _d_g: Dict[Tuple[int, int], int] = {}             # (node, character) -> node
+    _dead_g: Dict[int, bool] = {}
+
     def __init__(self, term):
-        self.key2id: Dict[tuple, int] = {}
-        self.keys: List[tuple] = []
-        self.nul: List[bool] = []
+        self.key2id, self.keys, self.nul = Dfa._key2id, Dfa._keys, Dfa._nul
+        self._d, self._dead = Dfa._d_g, Dfa._dead_g
         self.E = self._mk(("0",), False)
         self.EPSN = self._mk(("e",), True)
-        self._conv_memo: Dict[int, int] = {}
-        self._bounds = {0, MAXCH + 1}
         self.root = self._conv(term)
-        bs = sorted(self._bounds)
-        self.atom_lo = bs[:-1]  # atom i = [bs[i], bs[i+1]-1]
-        self._d: Dict[Tuple[int, int], int] = {}
-        self._dead: Dict[int, bool] = {}
+        leaves, seen, stack = [], set(), [self.root]
+        while stack:  # leaf classes reachable from the root (unions were merged by _nary)
+            x = stack.pop()
+            if x in seen:
+                continue
+            seen.add(x)
+            k = self.keys[x]
+            if k[0] == "c":
+                leaves.append(k[1])
+            elif k[0] in ("|", "&"):
+                stack.extend(k[1])
+            elif k[0] in (".", "*", "~"):
+                stack.extend(k[1:])
+        bounds = {0, MAXCH + 1}
+        for cs in leaves:
+            for lo, hi in cs:
+                bounds.add(lo)
+                bounds.add(hi + 1)
+        bs = sorted(bounds)
+        self.atom_lo = bs[:-1]  # interval i = [bs[i], bs[i+1]-1]
+        # intervals that lie in exactly the same leaf classes behave alike: group them
+        sig2g: Dict[tuple, int] = {}
+        self.group_of: List[int] = []
+        self.groups: List[List[Tuple[int, int]]] = []
+        for i, lo in enumerate(self.atom_lo):
+            sig = tuple(cs_has(cs, lo) for cs in leaves)
+            g = sig2g.setdefault(sig, len(sig2g))
+            if g == len(self.groups):
+                self.groups.append([])
+            self.groups[g].append((lo, bs[i + 1] - 1))
+            self.group_of.append(g)
+        self.natoms = len(self.groups)
+        self.rep = [g[0][0] for g in self.groups]
+        self.exhausted = False
 
     # -- hash-consed constructors -------------------------------------------------------
     def _mk(self, key, nul):
@@ -574,9 +634,6 @@ class Dfa:
     def _cls(self, cs: CSet):
         if not cs:
             return self.E
-        for lo, hi in cs:
-            self._bounds.add(lo)
-            self._bounds.add(hi + 1)
         return self._mk(("c", cs), False)
 
     def _cat(self, a, b):
@@ -641,8 +698,9 @@ class Dfa:
     # -- z3 term -> node ------------------------------------------------------------------
     def _conv(self, t) -> int:
         tid = t.get_id()
-        if tid in self._conv_memo:
-            return self._conv_memo[tid]
+        hit = Dfa._conv_memo_g.get(tid)
+        if hit is not None:
+            return hit[0]
         k = t.decl().kind()
         ch = [self._conv(t.arg(i)) for i in range(t.num_args())] if k not in (
             z3.Z3_OP_SEQ_TO_RE, z3.Z3_OP_RE_RANGE) else []
@@ -688,17 +746,17 @@ class Dfa:
                 r = self._cat(ch[0], r)
         else:
             raise ValueError(f"Dfa: unsupported z3 regex operator {t.decl().name()}")
-        self._conv_memo[tid] = r
+        Dfa._conv_memo_g[tid] = (r, t)  # keeping t alive keeps its ast id from being reused
         return r
 
     # -- derivatives ------------------------------------------------------------------------
     def atom_of(self, c: int) -> int:
         if c > MAXCH:
             c = SIGMA_MAX  # generic code point (see module docstring / generic_char_check)
-        return bisect.bisect_right(self.atom_lo, c) - 1
+        return self.group_of[bisect.bisect_right(self.atom_lo, c) - 1]
 
     def _deriv(self, n: int, a: int) -> int:
-        key = (n, a)
+        key = (n, self.rep[a])
         r = self._d.get(key)
         if r is not None:
             return r
@@ -707,7 +765,7 @@ class Dfa:
         if tag in ("0", "e"):
             r = self.E
         elif tag == "c":
-            r = self.EPSN if cs_has(k[1], self.atom_lo[a]) else self.E
+            r = self.EPSN if cs_has(k[1], self.rep[a]) else self.E
         elif tag == ".":
             r = self._cat(self._deriv(k[1], a), k[2])
             if self.nul[k[1]]:
@@ -744,7 +802,7 @@ class Dfa:
             if self.nul[x] or self._dead.get(x) is False:
                 found = True
                 break
-            for a in range(len(self.atom_lo)):
+            for a in range(self.natoms):
                 y = self._deriv(x, a)
                 if y not in seen and self._dead.get(y) is not True:
                     seen.add(y)
@@ -760,30 +818,30 @@ class Dfa:
         """A shortest accepted string (BFS, smallest representative characters)."""
         from collections import deque
         q, prev = deque([self.root]), {self.root: None}
+        self.exhausted = False
         while q and len(prev) < limit:
             x = q.popleft()
             if self.nul[x]:
                 out = []
                 while prev[x] is not None:
                     x, a = prev[x]
-                    out.append(chr(_nice_char(self.atom_lo[a], self._atom_hi(a))))
+                    out.append(chr(_nice_char(self.groups[a])))
                 return "".join(reversed(out))
-            for a in range(len(self.atom_lo)):
+            for a in range(self.natoms):
                 y = self._deriv(x, a)
                 if y not in prev and y != self.E:
                     prev[y] = (x, a)
                     q.append(y)
+        self.exhausted = not q  # the whole reachable part was explored: language is empty
         return None
 
-    def _atom_hi(self, a: int) -> int:
-        return (self.atom_lo[a + 1] - 1) if a + 1 < len(self.atom_lo) else MAXCH
 
-
-def _nice_char(lo: int, hi: int) -> int:
-    for c in (ord("a"), ord("0"), ord("!"), 0x80):
-        if lo <= c <= hi:
+def _nice_char(ranges) -> int:
+    """a readable representative of a character class, for witnesses"""
+    for c in itertools.chain(map(ord, "a0%!#@Z9 "), range(0x21, 0x7F), (0x80,)):
+        if any(lo <= c <= hi for lo, hi in ranges):
             return c
-    return lo
+    return ranges[0][0]
 
 
 sys.setrecursionlimit(max(sys.getrecursionlimit(), 20000))
@@ -852,28 +910,82 @@ def _cvc5_solve(sol, timeout_ms: int):
     return "unknown:cvc5 " + first[:80], None, dt
 
 
-def solve(lits: Lits, timeout_ms: int = 10000) -> dict:
-    """Find s with InRe(s, R) == pol for all (R, pol).  z3 (conjunction of memberships),
-    then z3 (one membership in an intersection), then cvc5.  Returns
-    {status: unsat|sat|unknown, witness, trail: [...], time_s}.  A `sat` is returned only
-    if the witness re-evaluates to the required polarities BOTH with z3's simplifier on the
-    concrete string and with the independent derivative evaluator; otherwise unknown."""
-    trail, total = [], 0.0
-    for label in ("z3/conj", "z3/single", "cvc5"):
+def dfa_decide(lits: Lits, max_states: int = 60000):
+    """Independent decision by derivatives: ('unsat', None) | ('sat', shortest witness) |
+    ('unknown', None) when more than max_states derivative states would be needed."""
+    d = Dfa(inter(*[r if pol else comp(r) for r, pol in lits]))
+    w = d.shortest(limit=max_states)
+    if w is not None:
+        return "sat", w
+    if d.exhausted:
+        return "unsat", None
+    return "unknown", None
+
+
+def solve(lits: Lits, timeout_ms: int = 10000, confirm_ms: Optional[int] = None) -> dict:
+    """Find s with InRe(s, R) == pol for all (R, pol).
+    Deciders: z3 (conjunction of memberships) is the designated solver.  The derivative
+    procedure of this module (`dfa_decide`) runs on every query as an independent second
+    opinion: a disagreement makes the query `unknown` (never a verdict).  If z3 answers
+    unknown, the derivative answer is used (by='derivatives'); if that is unknown as well,
+    z3 on a single intersected membership and then cvc5 are tried.
+    A `sat` is returned only with a witness that re-evaluates to the required polarities
+    both with z3's simplifier on the concrete string and with the derivative evaluator.
+    timeout_ms is the per-solver budget; confirm_ms (optional, smaller) is z3's budget on
+    queries the derivative procedure has already decided."""
+    trail, t00 = [], time.time()
+
+    def done(status, w=None, by=None):
+        return dict(status=status, witness=w, trail=trail, time_s=time.time() - t00, by=by)
+
+    t0 = time.time()
+    try:
+        dst, dw = dfa_decide(lits)
+    except Exception as e:  # unsupported operator etc.
+        dst, dw = "unknown", None
+        trail.append(f"derivatives: {e!r}")
+    trail.append(f"derivatives:{dst}:{time.time() - t0:.2f}s")
+    # confirm_ms: z3's budget when the derivative procedure has already decided the query
+    budget = confirm_ms if (confirm_ms and dst in ("sat", "unsat")) else timeout_ms
+    st, w, dt, sol = _z3_solve(lits, budget, single=False)
+    trail.append(f"z3/conj:{st}:{dt:.2f}s")
+    if st in ("sat", "unsat") and dst in ("sat", "unsat") and st != dst:
+        trail.append("DISAGREEMENT between z3 and the derivative procedure")
+        return done("unknown")
+    if st == "unsat":
+        return done("unsat", None, "z3/conj")
+    if st == "sat":
+        for cand, src in ((dw, "derivatives"), (w, "z3")):
+            if cand is None:
+                continue
+            okw, why = validate_lits(lits, cand)
+            if okw:
+                trail.append(f"witness from {src} re-evaluated")
+                return done("sat", cand, "z3/conj")
+            trail.append(f"model {cand!r} from {src} does not re-evaluate ({why})")
+        return done("unknown")
+    if dst == "unsat":
+        return done("unsat", None, "derivatives")
+    if dst == "sat":
+        okw, why = validate_lits(lits, dw)
+        if okw:
+            return done("sat", dw, "derivatives")
+        trail.append(f"derivative witness {dw!r} does not re-evaluate ({why})")
+        return done("unknown")
+    for label in ("z3/single", "cvc5"):
         if label == "cvc5":
-            st, w, dt = _cvc5_solve(last_sol, timeout_ms)
+            st, w, dt = _cvc5_solve(sol, timeout_ms)
         else:
-            st, w, dt, last_sol = _z3_solve(lits, timeout_ms, single=(label == "z3/single"))
-        total += dt
+            st, w, dt, _ = _z3_solve(lits, timeout_ms, single=True)
         trail.append(f"{label}:{st}:{dt:.2f}s")
         if st == "unsat":
-            return dict(status="unsat", witness=None, trail=trail, time_s=total, by=label)
+            return done("unsat", None, label)
         if st == "sat":
             okw, why = validate_lits(lits, w)
             if okw:
-                return dict(status="sat", witness=w, trail=trail, time_s=total, by=label)
+                return done("sat", w, label)
             trail.append(f"{label}: model {w!r} does not re-evaluate ({why})")
-    return dict(status="unknown", witness=None, trail=trail, time_s=total, by=None)
+    return done("unknown")
 
 
 def validate_lits(lits: Lits, w: str) -> Tuple[bool, str]:
@@ -889,62 +1001,158 @@ def validate_lits(lits: Lits, w: str) -> Tuple[bool, str]:
     return True, ""
 
 
-def run_tasks(fn, items: Sequence, procs: int = 16, hard_timeout_s: float = 120.0) -> list:
-    """fn(item) in forked children (one process per task, at most `procs` at a time), order
-    preserved.  A child that exceeds hard_timeout_s is killed and yields
-    {'status': 'unknown', 'trail': ['hard timeout']} -- nothing can hang the run."""
-    import multiprocessing as mp
+def _unknown(msg: str, dt: float = 0.0) -> dict:
+    return dict(status="unknown", witness=None, time_s=dt, trail=[msg], by=None)
 
-    ctx = mp.get_context("fork")
-    results: list = [None] * len(items)
-    running: Dict[int, tuple] = {}
-    nxt = 0
-    while nxt < len(items) or running:
-        while nxt < len(items) and len(running) < procs:
-            rd, wr = ctx.Pipe(duplex=False)
-            p = ctx.Process(target=_child, args=(fn, items[nxt], wr))
+
+class Pool:
+    """Worker pool with per-item hard timeouts.  A worker that spends more than
+    hard_timeout_s on one item is killed and replaced; that item yields status 'unknown'
+    -- nothing can hang.
+    start='fork': workers inherit the parent's objects; `items` (which may hold z3 terms)
+      are inherited too, so the pool lives for one map() only.
+    start='spawn': fresh interpreters, reusable for several map() calls; fn must be a
+      module-level function and the items picklable (they are sent over the pipe).  Used for
+      the solver queries: z3 inside forked children of a process that already holds many z3
+      terms was measured to scale badly."""
+
+    def __init__(self, fn, procs: int, start: str, items: Optional[Sequence] = None):
+        import multiprocessing as mp
+        self.ctx = mp.get_context(start)
+        self.fn, self.procs, self.start, self.items = fn, procs, start, items
+        self.workers: Dict[object, list] = {}  # parent conn -> [process, current index, start time]
+        self.spawned = 0
+        self.deaths_in_a_row = 0
+
+    def _spawn(self):
+        pc, cc = self.ctx.Pipe(duplex=True)
+        p = self.ctx.Process(target=_worker, args=(self.fn, self.items, cc), daemon=True)
+        if self.start == "fork":
             p.start()
-            wr.close()
-            running[nxt] = (p, rd, time.time())
-            nxt += 1
-        done = []
-        for i, (p, rd, t0) in running.items():
-            if rd.poll(0):
+        else:
+            # spawned workers must not re-import (re-run) the parent's __main__ script
+            main = sys.modules.get("__main__")
+            saved = {k: getattr(main, k) for k in ("__file__", "__spec__") if hasattr(main, k)}
+            try:
+                if hasattr(main, "__file__"):
+                    del main.__file__
+                main.__spec__ = None
+                p.start()
+            finally:
+                for k, v in saved.items():
+                    setattr(main, k, v)
+        cc.close()
+        self.workers[pc] = [p, None, 0.0]
+        self.spawned += 1
+        return pc
+
+    def map(self, items: Sequence, hard_timeout_s: float = 120.0) -> list:
+        from multiprocessing.connection import wait
+        n = len(items)
+        results: list = [None] * n
+        nxt = 0
+        workers = self.workers
+        inherit = self.items is not None
+
+        def feed(pc):
+            nonlocal nxt
+            if nxt < n:
+                workers[pc][1], workers[pc][2] = nxt, time.time()
+                pc.send(nxt if inherit else (nxt, items[nxt]))
+                nxt += 1
+            else:
+                workers[pc][1] = None
+
+        for pc in list(workers):
+            feed(pc)
+        while len(workers) < min(self.procs, n):
+            feed(self._spawn())
+        pending = n
+        while pending:
+            ready = wait(list(workers), timeout=0.25)
+            now = time.time()
+            for pc in ready:
+                p, idx, t0 = workers[pc]
                 try:
-                    results[i] = rd.recv()
-                except EOFError:
-                    results[i] = dict(status="unknown", witness=None, time_s=time.time() - t0,
-                                      trail=["worker died"], by=None)
-                done.append(i)
-            elif not p.is_alive():
-                results[i] = dict(status="unknown", witness=None, time_s=time.time() - t0,
-                                  trail=[f"worker exited with code {p.exitcode}"], by=None)
-                done.append(i)
-            elif time.time() - t0 > hard_timeout_s:
+                    i, r = pc.recv()
+                    results[i] = r
+                    pending -= 1
+                    self.deaths_in_a_row = 0
+                    feed(pc)
+                except (EOFError, OSError):
+                    if idx is not None and results[idx] is None:
+                        results[idx] = _unknown(f"worker died (exit {p.exitcode})", now - t0)
+                        pending -= 1
+                    del workers[pc]
+                    pc.close()
+                    self.deaths_in_a_row += 1
+                    if self.deaths_in_a_row > 2 * self.procs + 4:
+                        # workers cannot start at all: give up instead of respawning forever
+                        for k in range(n):
+                            if results[k] is None:
+                                results[k] = _unknown("worker pool cannot start workers")
+                        self.close()
+                        return results
+                    if nxt < n:
+                        feed(self._spawn())
+            for pc in list(workers):
+                p, idx, t0 = workers[pc]
+                if idx is not None and results[idx] is None and now - t0 > hard_timeout_s:
+                    p.kill()
+                    p.join(1)
+                    results[idx] = _unknown("hard timeout", now - t0)
+                    pending -= 1
+                    del workers[pc]
+                    pc.close()
+                    if nxt < n:
+                        feed(self._spawn())
+        return results
+
+    def close(self):
+        for pc, (p, _, _) in list(self.workers.items()):
+            try:
+                pc.send(None)
+                pc.close()
+            except OSError:
+                pass
+        for pc, (p, _, _) in list(self.workers.items()):
+            p.join(0.5)
+            if p.is_alive():
                 p.kill()
-                results[i] = dict(status="unknown", witness=None, time_s=time.time() - t0,
-                                  trail=["hard timeout"], by=None)
-                done.append(i)
-        for i in done:
-            p, rd, _ = running.pop(i)
-            p.join(1)
-            rd.close()
-        if not done:
-            time.sleep(0.005)
-    return results
+        self.workers.clear()
 
 
-def _child(fn, item, wr):
+def run_tasks(fn, items: Sequence, procs: int = 16, hard_timeout_s: float = 120.0) -> list:
+    """One-shot pool of forked workers over `items` (inherited, may hold z3 terms)."""
+    if not items:
+        return []
+    pool = Pool(fn, procs, "fork", items)
     try:
-        r = fn(item)
-    except Exception as e:  # reported, never silently turned into a verdict
-        import traceback
-        r = dict(status="unknown", witness=None, time_s=0.0, by=None,
-                 trail=["worker exception: " + "".join(traceback.format_exception_only(type(e), e)).strip()])
-    try:
-        wr.send(r)
+        return pool.map(items, hard_timeout_s)
     finally:
-        wr.close()
+        pool.close()
+
+
+def _worker(fn, items, conn):
+    try:
+        while True:
+            i = conn.recv()
+            if i is None:
+                break
+            if items is None:
+                i, item = i
+            else:
+                item = items[i]
+            try:
+                r = fn(item)
+            except Exception as e:  # reported, never silently turned into a verdict
+                import traceback
+                r = _unknown("worker exception: "
+                             + "".join(traceback.format_exception_only(type(e), e)).strip())
+            conn.send((i, r))
+    except (EOFError, OSError, KeyboardInterrupt):
+        pass
+    finally:
         os._exit(0)
 
 
